@@ -63,7 +63,7 @@ fn info(i: usize, power: u64) -> validator::Info {
     validator::Info {
         address: tendermint::account::Id::from(pub_key),
         pub_key,
-        power: u32::try_from(power).unwrap().into(),
+        power: tendermint::vote::Power::try_from(power).expect("power fits i64"),
         proposer_priority: 0.into(),
         name: None,
     }
@@ -80,12 +80,12 @@ fn timestamp() -> tendermint::Time {
     tendermint::Time::from_unix_timestamp(1, 1).unwrap()
 }
 
-fn vote_bytes(height: u32, hash: [u8; 32]) -> Vec<u8> {
+fn vote_bytes(height: u32, hash: Option<[u8; 32]>) -> Vec<u8> {
     let canonical_vote = tendermint::vote::CanonicalVote {
         vote_type: tendermint::vote::Type::Precommit,
         height: height.into(),
         round: 0u16.into(),
-        block_id: Some(block_id(hash)),
+        block_id: hash.map(block_id),
         timestamp: Some(timestamp()),
         chain_id: CHAIN_ID.try_into().unwrap(),
     };
@@ -106,11 +106,13 @@ impl Signer {
             .entry((v, kind.to_string(), height))
             .or_insert_with(|| {
                 let raw = match kind {
-                    "valid" => key(v).sign(&vote_bytes(height, HASH_H)),
+                    "valid" => key(v).sign(&vote_bytes(height, Some(HASH_H))),
                     // right message, wrong key
-                    "forged" => key(v + 100).sign(&vote_bytes(height, HASH_H)),
+                    "forged" => key(v + 100).sign(&vote_bytes(height, Some(HASH_H))),
                     // right key, a vote for another block
-                    "other" => key(v).sign(&vote_bytes(height, HASH_X)),
+                    "other" => key(v).sign(&vote_bytes(height, Some(HASH_X))),
+                    // a correctly signed precommit for nil
+                    "nil" => key(v).sign(&vote_bytes(height, None)),
                     _ => unreachable!(),
                 };
                 raw.to_bytes().as_ref().try_into().unwrap()
@@ -130,7 +132,7 @@ fn make_commit(entries: &[Value], height: u32, signer: &mut Signer) -> Commit {
                 "nil" => CommitSig::BlockIdFlagNil {
                     validator_address,
                     timestamp: timestamp(),
-                    signature: None,
+                    signature: Some(signer.sig(v, "nil", height)),
                 },
                 "missing" => CommitSig::BlockIdFlagCommit {
                     validator_address,
@@ -346,10 +348,34 @@ async fn pipeline_cases() {
             let mut raw = tail.into_iter().find(|t| t.rollup_id() == rollup_id_target()).unwrap().into_raw();
             let want_hash = if c["rblob"]["hash"] == "h" { HASH_H } else { HASH_X };
             raw.sequencer_block_hash = want_hash.to_vec().into();
+            // a further well-formed entry naming the same block but failing the audit (anyone can post one)
+            let mut junk = raw.clone();
+            junk.sequencer_block_hash = meta_hash.to_vec().into();
+            junk.transactions.push(b"junk".to_vec().into());
             if c["rblob"]["proof"] == "bad" {
                 raw.transactions.push(b"smuggled".to_vec().into());
             }
-            rollup_entries.push(raw);
+            match c["junk"].as_str().unwrap() {
+                "before" => rollup_entries.extend([junk, raw]),
+                "after" => rollup_entries.extend([raw, junk]),
+                _ => rollup_entries.push(raw),
+            }
+        } else if c["junk"] != "none" {
+            // no genuine blob of ours: the junk entry is built from a block that does list the target rollup
+            let other = ConfigureSequencerBlock {
+                block_hash: Some(block::Hash::new(meta_hash)),
+                chain_id: Some(meta_chain.to_string()),
+                height,
+                sequence_data: vec![(rollup_id_target(), b"junk".to_vec())],
+                unix_timestamp: (1i64, 1u32).into(),
+                signing_key: Some(key(1)),
+                ..Default::default()
+            }
+            .make();
+            let (_, tail) = other.split_for_celestia();
+            let mut junk = tail.into_iter().find(|t| t.rollup_id() == rollup_id_target()).unwrap().into_raw();
+            junk.transactions.push(b"more junk".to_vec().into());
+            rollup_entries.push(junk);
         }
         let header_blobs = vec![
             blob(seq_ns, b"not brotli at all".to_vec()),
@@ -398,7 +424,7 @@ async fn pipeline_cases() {
         if observed != expected {
             mism.push(json!({
                 "sig": format!("quorum:pipeline:expected={expected}:observed={observed}"),
-                "detail": {"commit_signed": signed, "meta": c["meta"], "rblob": c["rblob"]},
+                "detail": {"commit_signed": signed, "meta": c["meta"], "rblob": c["rblob"], "junk": c["junk"]},
             }));
         }
         out.put(&json!({"case": k, "mismatches": mism}));
